@@ -85,11 +85,19 @@ def perit_rule(fx, scope, op_path, marker="::set_loop_var_redirects", body_suffi
         if f.derived or f.closure or not scope(f):
             continue
         calls = list(f.calls())
-        if not any((t[1].get("d") or "").endswith(marker) for _, t in calls):
+        gets = {b for b, _ in op_aggs(f, op_path, "GetVar")}
+        decls = {b for b, _ in op_aggs(f, op_path, "DeclareVar")}
+        loops_ = L.natural_loops(f)
+        # a compiler of per-iteration bindings: it redirects the update's writes (the marker), or it carries the variables from scope to scope -
+        # one loop over them emits GetVar, another DeclareVar
+        carries = any(gets & body for _, body in loops_) and any(decls & body for _, body in loops_)
+        if not any((t[1].get("d") or "").endswith(marker) for _, t in calls) and not carries:
             continue
         bodies = [(bi, t) for bi, t in calls if (t[1].get("d") or "").endswith(body_suffix)]
         backs = [bi for bi, t in calls if (t[1].get("d") or "").endswith(back_suffix)]
-        gets = {b for b, _ in op_aggs(f, op_path, "GetVar")}
+        if not bodies or not backs:
+            if carries and not any((t[1].get("d") or "").endswith(marker) for _, t in calls):
+                continue
         helper_calls = {b for b, _ in op_sites(fx, f, scope, op_path, "GetVar", getvar_helpers)} - gets
         # a refresh is a loop over the registers that emits GetVar: its header is the waypoint (the loop may run zero times)
         way = set(helper_calls)      # a helper that emits the refreshing GetVars (it may loop inside)
@@ -119,6 +127,34 @@ def perit_rule(fx, scope, op_path, marker="::set_loop_var_redirects", body_suffi
             out.append((f, not leak, t[6], "a path from the body to the back jump refreshes no register from the scope" if leak else ""))
         # `continue` is a way out of the body too: the target that continues jump to must be emitted before the refresh, i.e. the call that fixes the
         # continue target is not reachable from the refresh
+        # CreatePerIterationEnvironment comes before the update: behind the body, no expression is compiled before the loop that declares the
+        # variables afresh (an update compiled in the old scope changes what the body's closures see, and one whose writes are redirected to
+        # registers reads stale values: `for (let a = 1, b = 2; a < 20; [a, b] = [b, a + b])` never ends)
+        fresh = set()
+        after_all = set()
+        for bb, t in bodies:
+            if t[4] is not None and t[4] >= 0:
+                after_all |= f.reachable_from(t[4])
+        for header, body in loops_:
+            if decls & body and header in after_all:
+                fresh.add(header)
+        for bb, t in bodies:
+            start = t[4]
+            if start is None or start < 0:
+                continue
+            seen, work, early = set(), [start], None
+            while work:
+                b = work.pop()
+                if b in seen or b in fresh:
+                    continue
+                seen.add(b)
+                tb = f.blocks[b]["t"]
+                if tb[0] == "call" and (tb[1].get("d") or "").endswith("::compile_expression"):
+                    early = tb[6]
+                    break
+                for s_ in f.succ(b):
+                    work.append(s_)
+            out.append((f, early is None, t[6], "the update clause is compiled before the next iteration's bindings are declared" if early else ""))
         conts = [(bi, t) for bi, t in calls if (t[1].get("d") or "").endswith("::set_continue_target")]
         for cb, ct in conts:
             after_body = set()
@@ -127,6 +163,25 @@ def perit_rule(fx, scope, op_path, marker="::set_loop_var_redirects", body_suffi
                     after_body |= f.reachable_from(t[4])
             late = any(cb in f.reachable_from(w) for w in way & after_body)
             out.append((f, not late, ct[6], "the continue target is fixed after the registers were refreshed: a `continue` skips the refresh" if late else ""))
+    return out
+
+
+def release_loops(fx, scope):
+    """[(fn, span, ok)] loops that only release registers; ok when they walk backwards"""
+    out = []
+    for p27, f27 in sorted(fx.fns.items()):
+        if f27.derived or not scope(f27):
+            continue
+        for hd27, body27 in L.natural_loops(f27):
+            cs27 = [(bi, t) for bi, t in f27.calls() if bi in body27]
+            frees27 = [t for _, t in cs27 if (t[1].get("d") or "").endswith("::free_register")]
+            if not frees27 or any((t[1].get("d") or "").endswith(("::alloc_register", "::reserve_registers", "::reserve_register_window")) for _, t in cs27):
+                continue
+            nx27 = [(t[1].get("d") or "") for _, t in cs27 if (t[1].get("u") or "").endswith("Iterator::next")]
+            pops27 = any((t[1].get("d") or "").endswith("::pop") for _, t in cs27)
+            if not nx27 and not pops27:
+                continue
+            out.append((f27, frees27[0][6], pops27 or all("::Rev<" in d for d in nx27)))
     return out
 
 
@@ -552,6 +607,20 @@ def run(fx, ck, OP):
         if not ok26:
             ck.finding("R26.rounding-and-zero-order", "R26.rounding-and-zero-order/%s/zeros" % f26.path, F.short_span(sp26),
                        "`%s` selects the extreme by `<` / `>` alone: the two zeros compare equal, so the first one wins - Math.max(-0, 0) is -0 and Math.min(0, -0) is +0" % f26.path)
+    # ---- R27 registers released last-allocated-first
+    ck.rule("R27.release-loops-reverse", "a loop of the compiler that only releases registers (free_register and no alloc_register) walks its collection backwards "
+            "(`.rev()` / `pop()`): the allocator hands the most recently freed register out first, and the value of a program is what its last expression "
+            "statement left in register 0", floor=5)
+    n27 = 0
+    for f27, sp27, ok27 in release_loops(fx, comp):
+        p27 = f27.path
+        n27 += 1
+        ck.instance("R27.release-loops-reverse", "%s: release loop" % p27, F.short_span(sp27), ok=ok27)
+        if not ok27:
+            ck.finding("R27.release-loops-reverse", "R27.release-loops-reverse/%s" % p27, F.short_span(sp27),
+                       "`%s` releases its registers in the order it allocated them: the next statement is handed the highest of them, not register 0, and the "
+                       "program's value is whatever register 0 still holds - `for (let i = 0, j = 10; i < 3; i++) {} 5` completes with 2" % p27)
+    ck.anchor(n27 >= 5, "release loops of the compiler (decorator registers, loop-variable registers)")
     # ---- R13 string positions have units
     import strunits
     ck.rule("R13.string-units", "units check over string natives: no script number from a byte quantity (U-out), no byte-position API fed a character quantity (U-in), "
@@ -700,8 +769,11 @@ def run(fx, ck, OP):
     for f, ok, sp, why in perit_rule(ctl, in_ctl, OPC):
         nm = f.path.split("::")[-1]
         pi[nm] = pi.get(nm, True) and ok
-    if pi != {"bad_for": False, "good_for": True, "bad_for_continue": False, "good_for_continue": True}:
+    if pi != {"bad_for": False, "good_for": True, "bad_for_continue": False, "good_for_continue": True, "bad_for_update_first": False}:
         ck.closed_fail.append("R10 control failed: %s" % pi)
+    rl27 = {f.path.split("::")[-1]: ok for f, sp, ok in release_loops(ctl, in_ctl)}
+    if rl27 != {"bad_release": False, "good_release": True, "good_release_pop": True}:
+        ck.closed_fail.append("R27 control failed: %s" % rl27)
     import mathsign as MS26
     in26 = lambda g: g.path.startswith("c01math::") and not g.path.startswith("c01math::prelude::")
     r26 = sorted(set(f.path.split("::")[-1] for f, sp, d in MS26.round_sites(ctl, in26)))
